@@ -373,6 +373,12 @@ PlayerJoin 玩家入桌
   - 適用時機: 玩家已經確認座位後入桌
 */
 func (te *tableEngine) PlayerJoin(playerID string) error {
+	// same lock as the other membership operations: the open step replaces te.table by a clone
+	// under this lock, a seated-in flag written to the pre-clone player record would be lost
+	// while the seat manager keeps it
+	te.lock.Lock()
+	defer te.lock.Unlock()
+
 	playerIdx := te.table.FindPlayerIdx(playerID)
 	if playerIdx == UnsetValue {
 		return ErrTablePlayerNotFound
